@@ -200,7 +200,8 @@ def tsan_reports(job, harness_markers=("harness/",)):
                 continue
             # split into stack sections; the first two are the two accesses
             secs = re.split(r"\n\s*\n", block)
-            acc = [s for s in secs if re.search(r"^\s*(Write|Read|Previous write|Previous read|Atomic|Previous atomic)", s.strip(), re.I)]
+            # (the first access follows the WARNING line inside the first section: match per line)
+            acc = [s for s in secs if re.search(r"^\s*(Write|Read|Previous write|Previous read|Atomic|Previous atomic)", s, re.I | re.M)]
             ok = len(acc) >= 2
             funcs = []
             for s in acc[:2]:
@@ -253,6 +254,27 @@ class Result:
         self.jobs = 0
         self.tsan_discarded = 0
         self.extra = {}
+
+
+def merge(a, b):
+    """Accumulate the result of another round into a."""
+    a.violations += b.violations
+    a.inconclusive += b.inconclusive
+    a.trials += b.trials
+    a.sigs |= b.sigs
+    a.samples = (a.samples + b.samples)[:12]
+    for k, v in b.counters.items():
+        a.counters[k] = a.counters.get(k, 0) + v
+    for k, v in b.siteops.items():
+        a.siteops[k] = a.siteops.get(k, 0) + v
+    a.nsites = max(a.nsites, b.nsites)
+    a.injected += b.injected
+    a.stamps += b.stamps
+    a.jobs += b.jobs
+    a.tsan_discarded += b.tsan_discarded
+    for k, v in b.extra.items():
+        a.extra.setdefault(k, []).extend(v)
+    return a
 
 
 def run_jobs(prop, jobs, seed, parallel=None):
